@@ -117,14 +117,26 @@ theorem iterEntries_ne_nil : ∀ (es : Entries) (base : Key), WFEntries es → e
 
 /-! ### the landing specification -/
 
+theorem no_prefix_of_lt {T y : Key} (h : keyLt y T = true) : hasPrefix T y = false := by
+  cases hp : hasPrefix T y with
+  | false => rfl
+  | true =>
+    obtain ⟨r, hr⟩ := (hasPrefix_iff T y).1 hp
+    rw [hr, keyLt_ext_base] at h
+    exact absurd h (by simp)
+
 /-- `S` is a non-empty tail of `L`, everything before it is smaller than the probe `T`, and
 everything after its first element is not smaller than `T`: the iterator stands on the lower
-bound of `T` or on the key just before it. -/
+bound of `T` or on the key just before it — and in the latter case no key has the prefix `T`. -/
 def SeekOK (T : Key) (L S : List KV) : Prop :=
-  ∃ D, L = D ++ S ∧ (∀ d ∈ D, keyLt d.1 T = true) ∧ S ≠ [] ∧ (∀ y ∈ S.tail, keyLt y.1 T = false)
+  ∃ D, L = D ++ S ∧ (∀ d ∈ D, keyLt d.1 T = true) ∧ S ≠ [] ∧ (∀ y ∈ S.tail, keyLt y.1 T = false) ∧
+    (∀ x, S.head? = some x → keyLt x.1 T = true → ∀ y ∈ L, hasPrefix T y.1 = false)
 
-theorem SeekOK.all_ge {T : Key} {L : List KV} (hne : L ≠ []) (h : ∀ y ∈ L, keyLt y.1 T = false) : SeekOK T L L :=
-  ⟨[], rfl, by simp, hne, fun y hy => h y (List.mem_of_mem_tail hy)⟩
+theorem SeekOK.all_ge {T : Key} {L : List KV} (hne : L ≠ []) (h : ∀ y ∈ L, keyLt y.1 T = false) : SeekOK T L L := by
+  refine ⟨[], rfl, by simp, hne, fun y hy => h y (List.mem_of_mem_tail hy), ?_⟩
+  intro x hx hlt
+  have := h x (List.mem_of_mem_head? hx)
+  rw [this] at hlt; exact absurd hlt (by simp)
 
 theorem getLast?_split {α} : ∀ (L : List α), L ≠ [] → ∃ D x, L = D ++ [x] ∧ L.getLast? = some x
   | [], h => absurd rfl h
@@ -138,31 +150,60 @@ theorem SeekOK.last {T : Key} {L : List KV} (hne : L ≠ []) (h : ∀ y ∈ L, k
   obtain ⟨D, x, h1, h2⟩ := getLast?_split L hne
   unfold lastKV
   rw [h2]
-  refine ⟨D, h1, ?_, by simp, by simp⟩
-  intro d hd
-  exact h d (by rw [h1]; exact List.mem_append_left _ hd)
+  refine ⟨D, h1, ?_, by simp, by simp, ?_⟩
+  · intro d hd
+    exact h d (by rw [h1]; exact List.mem_append_left _ hd)
+  · intro _ _ _ y hy
+    exact no_prefix_of_lt (h y hy)
 
 theorem SeekOK.prepend {T : Key} {A L S : List KV} (hA : ∀ d ∈ A, keyLt d.1 T = true) (h : SeekOK T L S) :
     SeekOK T (A ++ L) S := by
-  obtain ⟨D, hL, hD, hne, ht⟩ := h
-  refine ⟨A ++ D, by rw [hL, List.append_assoc], ?_, hne, ht⟩
-  intro d hd
-  rcases List.mem_append.1 hd with h | h
-  · exact hA d h
-  · exact hD d h
+  obtain ⟨D, hL, hD, hne, ht, hp⟩ := h
+  refine ⟨A ++ D, by rw [hL, List.append_assoc], ?_, hne, ht, ?_⟩
+  · intro d hd
+    rcases List.mem_append.1 hd with h | h
+    · exact hA d h
+    · exact hD d h
+  · intro x hx hlt y hy
+    rcases List.mem_append.1 hy with hy | hy
+    · exact no_prefix_of_lt (hA y hy)
+    · exact hp x hx hlt y hy
 
-theorem SeekOK.append {T : Key} {L S B : List KV} (hB : ∀ y ∈ B, keyLt y.1 T = false) (h : SeekOK T L S) :
+theorem SeekOK.append {T : Key} {L S B : List KV} (hB : ∀ y ∈ B, keyLt y.1 T = false)
+    (hBp : ∀ y ∈ B, hasPrefix T y.1 = false) (h : SeekOK T L S) :
     SeekOK T (L ++ B) (S ++ B) := by
-  obtain ⟨D, hL, hD, hne, ht⟩ := h
-  refine ⟨D, by rw [hL, List.append_assoc], hD, by simp [hne], ?_⟩
-  intro y hy
-  cases S with
-  | nil => exact absurd rfl hne
-  | cons s ss =>
-    simp only [List.cons_append, List.tail_cons, List.mem_append] at hy
-    rcases hy with hy | hy
-    · exact ht y (by simpa using hy)
-    · exact hB y hy
+  obtain ⟨D, hL, hD, hne, ht, hp⟩ := h
+  refine ⟨D, by rw [hL, List.append_assoc], hD, by simp [hne], ?_, ?_⟩
+  · intro y hy
+    cases S with
+    | nil => exact absurd rfl hne
+    | cons s ss =>
+      simp only [List.cons_append, List.tail_cons, List.mem_append] at hy
+      rcases hy with hy | hy
+      · exact ht y (by simpa using hy)
+      · exact hB y hy
+  · intro x hx hlt y hy
+    have hx' : S.head? = some x := by
+      cases S with
+      | nil => exact absurd rfl hne
+      | cons s ss => simpa using hx
+    rcases List.mem_append.1 hy with hy | hy
+    · exact hp x hx' hlt y hy
+    · exact hBp y hy
+
+/-- keys below other labels do not have the probe as a prefix -/
+theorem entries_no_prefix {es : Entries} {base : Key} {c : Nat} (rest : Key) (hwf : WFEntries es)
+    (h : allLabels (· ≠ c) es) : ∀ kv ∈ iterEntries base es, hasPrefix (base ++ c :: rest) kv.1 = false := by
+  intro kv hkv
+  obtain ⟨l, r, hl, hk⟩ := iterEntries_label es base _ hwf h kv hkv
+  cases hp : hasPrefix (base ++ c :: rest) kv.1 with
+  | false => rfl
+  | true =>
+    obtain ⟨q, hq⟩ := (hasPrefix_iff _ _).1 hp
+    rw [hk, List.append_assoc] at hq
+    have := List.append_cancel_left hq
+    simp at this
+    exact absurd this.1 hl
 
 /-! ### labels greater than the probe's label -/
 
@@ -231,9 +272,14 @@ theorem greaterOrLast_spec {sub : Entries} {base : Key} {c : Nat} {rest : Key} {
     rw [hall]
     apply SeekOK.prepend hpre
     rw [h1, hg]
-    refine ⟨D, rfl, h2, by simp, ?_⟩
-    intro y hy
-    exact h3 y (by rw [hg]; exact List.mem_cons_of_mem _ hy)
+    refine ⟨D, rfl, h2, by simp, ?_, ?_⟩
+    · intro y hy
+      exact h3 y (by rw [hg]; exact List.mem_cons_of_mem _ hy)
+    · intro x hx hlt
+      simp only [List.head?_cons, Option.some.injEq] at hx
+      subst hx
+      have := h3 g (by rw [hg]; exact List.mem_cons_self ..)
+      rw [this] at hlt; exact absurd hlt (by simp)
 
 /-! ### the label search of `seek` -/
 
@@ -339,7 +385,7 @@ mutual
           | leaf l suf v r =>
             unfold WFRow at hwf
             simp only
-            rcases hwf with ⟨hl, hsuf, hnil, hr⟩ | ⟨hnot, hle, habove, hr⟩
+            rcases hwf with ⟨hl, hsuf, hnil, hr⟩ | ⟨hle, habove, hr⟩
             · subst hl hsuf
               simp only [labelTerminator, beq_self_eq_true, hnil, Bool.not_false, Bool.and_self, if_true]
               apply seek_row (pre := [(path ++ pfx, v)]) hr hnil
@@ -387,9 +433,15 @@ mutual
         subst h
         simp only
         rw [iterEntries_leaf_real hwf]
-        refine ⟨[], rfl, by simp, by simp, ?_⟩
-        simp only [List.tail_cons]
-        exact entries_gt rest hr habove
+        refine ⟨[], rfl, by simp, by simp, ?_, ?_⟩
+        · simp only [List.tail_cons]
+          exact entries_gt rest hr habove
+        · intro x hx hlt y hy
+          simp only [List.head?_cons, Option.some.injEq] at hx
+          subst hx
+          rcases List.mem_cons.1 hy with rfl | hy
+          · exact no_prefix_of_lt hlt
+          · exact entries_no_prefix rest hr (allLabels_imp (fun z hz => by omega) r habove) y hy
       · have hne : (l == c) = false := by simpa using hlc
         simp only [hne] at h
         have hlt : l < c := seekEntries_some_gt r base c rest l x habove h
@@ -414,7 +466,8 @@ mutual
         have ih := seekNode_spec n (base ++ [l]) rest hn
         have hT : (base ++ [l]) ++ rest = base ++ l :: rest := by simp
         rw [hT] at ih
-        exact SeekOK.append (entries_gt rest hr habove) ih
+        exact SeekOK.append (entries_gt rest hr habove)
+          (entries_no_prefix rest hr (allLabels_imp (fun z hz => by omega) r habove)) ih
       · have hne : (l == c) = false := by simpa using hlc
         simp only [hne] at h
         have hlt : l < c := seekEntries_some_gt r base c rest l x habove h
